@@ -125,19 +125,16 @@ func project(v reflect.Value, depth int) interface{} {
 		if t == tBuffer {
 			if v.CanAddr() {
 				b := v.Addr().Interface().(*util.Buffer)
-				return byteList(b.Bytes())
+				return J{"T": "Buffer", "B": byteList(b.Bytes())}
 			}
 			cp := reflect.New(t)
 			cp.Elem().Set(v)
-			return byteList(cp.Interface().(*util.Buffer).Bytes())
+			return J{"T": "Buffer", "B": byteList(cp.Interface().(*util.Buffer).Bytes())}
 		}
 		out := J{"T": t.Name()}
 		if t == tMF {
 			// match-field payload types keep their value unexported: observe them through their own encoding
 			for _, f := range []string{"Class", "Field", "HasMask", "Length", "ExperimenterID"} {
-				if f == "Length" && skipLength {
-					continue
-				}
 				out[f] = project(v.FieldByName(f), depth+1)
 			}
 			for _, f := range []string{"Value", "Mask"} {
@@ -162,8 +159,9 @@ func project(v reflect.Value, depth int) interface{} {
 				}
 				continue
 			}
-			if sf.Anonymous && sf.Name == "Header" {
-				out["Header"] = project(fv, depth+1)
+			if sf.Anonymous && !(strings.HasSuffix(sf.Name, "Header") && sf.Name != "Header") && sf.Name != "ErrorMsg" {
+				// an embedded message part (common.Header, Match) stays a part; embedded element headers are flattened
+				out[sf.Name] = project(fv, depth+1)
 				continue
 			}
 			if sf.Anonymous {
@@ -179,8 +177,8 @@ func project(v reflect.Value, depth int) interface{} {
 				}
 				continue
 			}
-			if sf.Name == "Length" && skipLength {
-				continue // derived bookkeeping, not a value put in by the caller
+			if sf.Name == "Length" && skipLength && t.Name() == "Bucket" {
+				continue // derived by the encoder, not a value put in by the caller
 			}
 			out[sf.Name] = project(fv, depth+1)
 		}
